@@ -30,6 +30,9 @@ DS = {'load_study': 'DLoadStudy', 'create_study': 'DCreateStudy', 'update_study'
       'update_early_stopping_operation': 'DUpdateEs', 'update_metadata': 'DUpdateMd'}
 
 
+KEYS = []      # (lock kind, source text of the key expression) of the with-statements of the method being walked
+
+
 def lock_of(expr):
   """KOwner / KStudy / KOp for `self.<lock attr>[...]`, None for anything that is not a servicer lock."""
   if isinstance(expr, ast.Subscript) and isinstance(expr.value, ast.Attribute) and isinstance(expr.value.value, ast.Name) \
@@ -66,6 +69,7 @@ def walk(node, held, sites, nests):
       k = lock_of(item.context_expr)
       if k is None:
         raise Fail('a with-statement on something that is not `self.<servicer lock>[...]` (a lock may hide behind it)')
+      KEYS.append((k, ast.unparse(item.context_expr.slice)))
       nests.append((tuple(new), k))
       new.append(k)
     for st in node.body:
@@ -81,6 +85,38 @@ def walk(node, held, sites, nests):
     raise Fail('self.datastore used other than as self.datastore.<method>(...)')
   for child in ast.iter_child_nodes(node):
     walk(child, held, sites, nests)
+
+
+# what names the study (resp. owner) a request addresses, per method (vizier_service.proto); a per-study lock protects a study only
+# if every handler indexes the lock table with the STUDY's name
+STUDY_KEY = {'SetStudyState': 'request.parent', 'SuggestTrials': 'request.parent', 'CreateTrial': 'request.parent', 'UpdateMetadata': 'request.name'}
+TRIAL_FIELD = {'AddTrialMeasurement': 'trial_name', 'CompleteTrial': 'name', 'DeleteTrial': 'name', 'StopTrial': 'name',
+               'CheckTrialEarlyStoppingState': 'trial_name'}
+
+
+def check_lock_keys(name, fn):
+  """Every study / operation lock is indexed by the name of the study the request addresses, the owner lock by the owner's."""
+  assigned = {}
+  for sub in ast.walk(fn):
+    if isinstance(sub, ast.Assign) and len(sub.targets) == 1 and isinstance(sub.targets[0], ast.Name):
+      assigned.setdefault(sub.targets[0].id, []).append(ast.unparse(sub.value))
+  ok_keys = set()
+  if name in STUDY_KEY:
+    ok_keys.add(STUDY_KEY[name])
+    if assigned.get('study_name') == [STUDY_KEY[name]]:
+      ok_keys.add('study_name')
+  if name in TRIAL_FIELD:
+    f = TRIAL_FIELD[name]
+    if assigned.get('study_name') == ['TrialResource.from_name(request.%s).study_resource.name' % f]:
+      ok_keys.add('study_name')
+    if assigned.get('trial_resource') == ['TrialResource.from_name(request.%s)' % f] and assigned.get('study_name') == ['trial_resource.study_resource.name']:
+      ok_keys.add('study_name')
+  for kind, key in KEYS:
+    if kind == 'KOwner':
+      if not (name == 'CreateStudy' and key == 'request.parent'):
+        raise Fail('%s: the owner lock is indexed by %s, not by the owner the request addresses' % (name, key))
+    elif key not in ok_keys:
+      raise Fail('%s: a per-study lock is indexed by %s, which is not (provably) the name of the study the request addresses' % (name, key))
 
 
 def translate(repo):
@@ -104,8 +140,10 @@ def translate(repo):
   nest_rows = []
   for name in RPCS + HELPERS:
     sites, nests = [], []
+    del KEYS[:]
     for st in methods[name].body:
       walk(st, [], sites, nests)
+    check_lock_keys(name, methods[name])
     # helper calls made by the method (the immutability guard) are listed as their own call sites, outside every lock
     uses_guard = any(isinstance(sub, ast.Call) and isinstance(sub.func, ast.Attribute) and sub.func.attr == '_study_is_immutable'
                      for sub in ast.walk(methods[name]))
